@@ -21,7 +21,7 @@ def WF_REL(L=M):
 
 
 def WF_ABS(L=M):
-    return (f"forall(0, len({L}), lambda w: not is_none({L}[w].message_type) and not is_none({L}[w].time) and {L}[w].time >= 0)"
+    return (f"forall(0, len({L}), lambda w: not is_none({L}[w].message_type) and {L}[w].message_type != MessageType.WAIT and not is_none({L}[w].time) and {L}[w].time >= 0)"
             f" and {DISTINCT(L)}")
 
 
